@@ -90,7 +90,7 @@ def decode(text, diags):
     return out
 
 
-def drive(verif, tag, cases, judge, nservers=8, cpu_limit=60.0, reuse_uri=False, then_judge=None):
+def drive(verif, tag, cases, judge, nservers=8, cpu_limit=60.0, reuse_uri=False, then_judge=None, resend=False):
     """Feed the cases to `nservers` server sessions; judge(case, status, diagnostics) -> findings."""
     base = os.path.join(verif, "target", "run", "lsx_" + tag)
     shutil.rmtree(base, ignore_errors=True)
@@ -118,6 +118,20 @@ def drive(verif, tag, cases, judge, nservers=8, cpu_limit=60.0, reuse_uri=False,
                 n0 = s.n_publishes(uri)
                 s.notify("textDocument/didOpen", {"textDocument": {"uri": uri, "languageId": c["lang"], "version": 1, "text": c["text"]}})
                 status = await_publish(s, uri, n0, cpu_limit)
+                if resend and status == "ok" and i % 4 == 1:
+                    # what editors do on focus changes and format-on-save: the unchanged buffer is sent again, then saved
+                    for what in ("didChange", "didSave"):
+                        n1 = s.n_publishes(uri)
+                        if what == "didChange":
+                            s.notify("textDocument/didChange", {"textDocument": {"uri": uri, "version": 2}, "contentChanges": [{"text": c["text"]}]})
+                        else:
+                            s.notify("textDocument/didSave", {"textDocument": {"uri": uri}})
+                        status = await_publish(s, uri, n1, cpu_limit)
+                        if status != "ok":
+                            c = dict(c, text=c["text"], resent=what)
+                            break
+                    with lock:
+                        stats["resent"] = stats.get("resent", 0) + 1
                 diags = decode(c["text"], s.last_diagnostics(uri)) if status == "ok" else []
                 with lock:
                     stats["cases"] += 1
@@ -199,7 +213,8 @@ def liveness(prop, c, status):
         return []
     what = {"died": "the server process ended", "no-answer": "the server stayed alive but never published diagnostics for the document and used no CPU for 9 s (the handler is gone)",
             "hang": "the server used more than the CPU limit on this one document without answering"}[status]
-    return [F("C01", "ls.%s@%s" % (status, c["lang"]), c, "didOpen of a %d-character %s document: %s" % (len(c["text"]), c["lang"], what))]
+    step = "didOpen" if not c.get("resent") else "%s of the unchanged text after didOpen" % c["resent"]
+    return [F("C01", "ls.%s@%s%s" % (status, c["lang"], "/resent" if c.get("resent") else ""), c, "%s of a %d-character %s document: %s" % (step, len(c["text"]), c["lang"], what))]
 
 
 def result(t0, cases, findings, inconclusive, stats, shapes, samples, note):
@@ -304,7 +319,7 @@ def run_c01(tier, seed, scale, verif):
                 samples.append({"language_id": c["lang"], "text": c["text"][:120], "diagnostics": len(diags)})
         return liveness("C01", c, status)
 
-    findings, inc, stats = drive(verif, "c01", cases, judge, reuse_uri=True)
+    findings, inc, stats = drive(verif, "c01", cases, judge, reuse_uri=True, resend=True)
     return result(t0, cases, findings, inc, stats, shapes, samples, "harper-ls on hostile documents in every language id: %(cases)d documents, %(answered)d answered, %(restarts)d server restarts")
 
 
